@@ -219,12 +219,19 @@ func (s *CDX) componentsMaps(ctx context.Context, bom *sbom.Document) error {
 			continue
 		}
 
+		if _, ok := state.componentsDict[comp.BOMRef]; !ok {
+			state.order = append(state.order, comp.BOMRef)
+		}
 		state.componentsDict[comp.BOMRef] = comp
 	}
 	return nil
 }
 
-// NOTE dependencies function modifies the components dictionary
+// dependencies walks the edges once. It records the containment tree (for
+// every component the ordered list of the components it contains; when a
+// component is contained more than once, the first edge wins) in the
+// serializer state and returns the dependency graph. The components
+// themselves are nested afterwards, see serializerCDXState.components().
 func (s *CDX) dependencies(ctx context.Context, bom *sbom.Document) ([]cdx.Dependency, error) {
 	var dependencies []cdx.Dependency
 	state, err := getCDXState(ctx)
@@ -235,9 +242,6 @@ func (s *CDX) dependencies(ctx context.Context, bom *sbom.Document) ([]cdx.Depen
 	for _, e := range bom.NodeList.Edges {
 		e := e
 		if e == nil {
-			continue
-		}
-		if _, ok := state.addedDict[e.From]; ok {
 			continue
 		}
 
@@ -253,15 +257,21 @@ func (s *CDX) dependencies(ctx context.Context, bom *sbom.Document) ([]cdx.Depen
 		case sbom.Edge_contains:
 			// Make sure we have the target component
 			for _, targetID := range e.To {
-				state.addedDict[targetID] = struct{}{}
 				if _, ok := state.componentsDict[targetID]; !ok {
 					return nil, fmt.Errorf("unable to locate node %s", targetID)
 				}
 
-				if state.componentsDict[e.From].Components == nil {
-					state.componentsDict[e.From].Components = &[]cdx.Component{}
+				// The root component cannot be nested and a component
+				// cannot contain itself
+				if _, isRoot := state.addedDict[targetID]; isRoot || targetID == e.From {
+					continue
 				}
-				*state.componentsDict[e.From].Components = append(*state.componentsDict[e.From].Components, *state.componentsDict[targetID])
+
+				if _, ok := state.parentDict[targetID]; ok {
+					continue
+				}
+				state.parentDict[targetID] = e.From
+				state.childrenDict[e.From] = append(state.childrenDict[e.From], targetID)
 			}
 
 		case sbom.Edge_dependsOn:
@@ -278,7 +288,6 @@ func (s *CDX) dependencies(ctx context.Context, bom *sbom.Document) ([]cdx.Depen
 					return nil, fmt.Errorf("unable to locate node %s", targetID)
 				}
 
-				state.addedDict[targetID] = struct{}{}
 				depListCheck[targetID] = struct{}{}
 				targetStrings = append(targetStrings, targetID)
 			}
@@ -458,24 +467,77 @@ func (s *CDX) Render(doc interface{}, wr io.Writer, o *native.RenderOptions, _ i
 }
 
 type serializerCDXState struct {
+	// addedDict holds the identifier of the root component, which is
+	// emitted as the metadata component and never as a regular component
 	addedDict      map[string]struct{}
 	componentsDict map[string]*cdx.Component
+	// order lists the component identifiers in node list order
+	order []string
+	// parentDict and childrenDict describe the containment tree
+	parentDict   map[string]string
+	childrenDict map[string][]string
 }
 
 func newSerializerCDXState() *serializerCDXState {
 	return &serializerCDXState{
 		addedDict:      map[string]struct{}{},
 		componentsDict: map[string]*cdx.Component{},
+		order:          []string{},
+		parentDict:     map[string]string{},
+		childrenDict:   map[string][]string{},
 	}
 }
 
+// components assembles the component tree: every component is emitted exactly
+// once, nested under the first component that contains it. Components
+// contained by the root component (or by nothing) are emitted at the top
+// level. Containment cycles are cut where they close.
 func (s *serializerCDXState) components() []cdx.Component {
 	components := []cdx.Component{}
-	for _, c := range s.componentsDict {
-		if _, ok := s.addedDict[c.BOMRef]; ok {
+	placed := map[string]struct{}{}
+
+	var build func(id string) cdx.Component
+	build = func(id string) cdx.Component {
+		placed[id] = struct{}{}
+		c := *s.componentsDict[id]
+		subcomponents := []cdx.Component{}
+		for _, childID := range s.childrenDict[id] {
+			if _, ok := placed[childID]; ok {
+				continue
+			}
+			subcomponents = append(subcomponents, build(childID))
+		}
+		if len(subcomponents) > 0 {
+			c.Components = &subcomponents
+		}
+		return c
+	}
+
+	for _, id := range s.order {
+		if _, isRoot := s.addedDict[id]; isRoot {
 			continue
 		}
-		components = append(components, *c)
+		if _, ok := placed[id]; ok {
+			continue
+		}
+		if parent, ok := s.parentDict[id]; ok {
+			if _, parentIsRoot := s.addedDict[parent]; !parentIsRoot {
+				// Nested when its parent is built
+				continue
+			}
+		}
+		components = append(components, build(id))
+	}
+
+	// Anything left sits on a containment cycle that no top level
+	// component reaches
+	for _, id := range s.order {
+		if _, isRoot := s.addedDict[id]; isRoot {
+			continue
+		}
+		if _, ok := placed[id]; !ok {
+			components = append(components, build(id))
+		}
 	}
 
 	return components
